@@ -11,7 +11,8 @@ from ..core import expect_return, run_async, run_sync, trace_view, consumer_view
 PROPERTY = "C06"
 LEVEL = "fault_enumeration"
 RULE = (
-    "For each Hypothesis-generated fault-free case (every iterator tool and aggregation; sources as "
+    "For each Hypothesis-generated fault-free case (every iterator tool and aggregation, and groupby driven by "
+    "the advance histories of C16 against itertools.groupby; sources as "
     "async generator / class-based async iterator / one-shot sync iterator / __getitem__ sequence; "
     "callables as def / async def / partial / callable object) the stdlib reference run yields the list "
     "of uses (every pull of every source including the end-of-data pull, every call of every callable). "
@@ -142,8 +143,49 @@ def classify(case):
     return out
 
 
+# ---- groupby (not in the tool table: it is driven by histories, see C16) ---------------------
+
+
+@st.composite
+def groupby_cases(draw, tier):
+    from . import c16
+
+    case = draw(c16.histories(tier))
+    case["exc"] = draw(st.lists(st.sampled_from(EXC_NAMES), min_size=2, max_size=2, unique=True)) \
+        if tier == "quick" else list(EXNAMES_ALL)
+    return case
+
+
+EXNAMES_ALL = EXC_NAMES
+
+
+def check_groupby(case):
+    from . import c16
+
+    if case.get("fault"):
+        c16.check(case)
+        return None
+    n = 0
+    nontrivial = []
+    resources = ["s0"] + (["key"] if case["key"] is not None else [])
+    for res in resources:
+        top = len(case["items"]) + (1 if res == "s0" else 0)
+        for at in range(1, top + 1):
+            for exc in case["exc"]:
+                sub = {k: v for k, v in case.items() if k != "exc"}
+                sub.update(fault=[res, at, exc], prop="C06/groupby")
+                c16.check(sub)
+                n += 1
+                if at >= 2:
+                    nontrivial.append(f"{res}@{at}:{exc}")
+    return {"evaluations": max(n, 1), "nontrivial": nontrivial, "labels": {"fault-runs": n}}
+
+
 def shards(tier):
     return [
+        Shard("groupby", check_groupby, strategy=groupby_cases(tier), n=300, nontrivial=lambda c: False,
+              thorough_mult=20),
+    ] + [
         Shard(name, check, strategy=cases(name, tier), n=150, nontrivial=lambda c: False,
               classify=classify, thorough_mult=20)
         for name in ALL
